@@ -290,6 +290,11 @@ class SymRange(Abstract):
         pass
 
 
+@builtin("slice", pytype=slice)
+def b_slice(I, args, kw, node):
+    raise OutsideSubset("slice() object construction", node)
+
+
 @builtin("isinstance")
 def b_isinstance(I, args, kw, node):
     v, t = args
@@ -332,6 +337,8 @@ def _isinst(I, v, t, node):
             return isinstance(v, PySet)
         if t.name == "object":
             return True
+        if t.name == "slice":
+            return isinstance(v, slice)      # integers, reals, lists and objects of the model are never slices
         if t.name in EXC_PARENTS or t.name == "BaseException":
             return isinstance(v, ExcValue) and exc_is_subclass(v.name, t.name)
     if isinstance(t, ExternalRef):
